@@ -8,7 +8,7 @@ import zlib
 
 TAIL = b'\x00\x00\xff\xff'
 
-STYLES = ('sync', 'full', 'stored', 'bfinal', 'sync_level1', 'sync_multi')
+STYLES = ('sync', 'full', 'stored', 'bfinal', 'sync_level1', 'sync_multi', 'bfinal_keep', 'bfinal_mid')
 
 
 class InflateError(Exception):
@@ -21,16 +21,27 @@ class Peer(object):
         self.client_bits = client_bits
         self.server_nct = server_nct
         self.client_nct = client_nct
+        self._hist = b''              # what this peer has compressed since its context was last emptied
         self._new_deflater()
         self._new_inflater()
 
     # zlib cannot deflate with a 256-byte window; a 9-bit stream never reaches back
     # further than 2^9-262 = 250 bytes, which a 256-byte inflate window can resolve.
-    def _new_deflater(self, level=None):
+    def _new_deflater(self, level=None, keep_window=False):
+        """keep_window: a new DEFLATE stream that goes on using the LZ77 window of the previous one (a peer that
+        ends streams with BFINAL=1 blocks, RFC 7692 7.2.3.4, but has not agreed to server_no_context_takeover)"""
         self._level = level
-        self._deflater = zlib.compressobj(
-            zlib.Z_DEFAULT_COMPRESSION if level is None else level,
-            zlib.DEFLATED, -max(9, self.server_bits))
+        bits = max(9, self.server_bits)
+        if keep_window and self._hist:
+            # the last 2^server_bits - 262 bytes at most can be referenced (zlib's MAX_DIST), with server_bits 8 at most 250
+            window = self._hist[-((1 << bits) - 262):]
+            self._deflater = zlib.compressobj(zlib.Z_DEFAULT_COMPRESSION if level is None else level,
+                                              zlib.DEFLATED, -bits, zlib.DEF_MEM_LEVEL, zlib.Z_DEFAULT_STRATEGY, window)
+        else:
+            self._hist = b''
+            self._deflater = zlib.compressobj(
+                zlib.Z_DEFAULT_COMPRESSION if level is None else level,
+                zlib.DEFLATED, -bits)
 
     def _new_inflater(self):
         # inflate window exactly what the client was told it may use
@@ -40,6 +51,26 @@ class Peer(object):
     def compress(self, data, style='sync'):
         """Return the message payload (RFC 7692 7.2.1) for `data`."""
         d = self._deflater
+        if style in ('bfinal_keep', 'bfinal_mid'):
+            if self.server_nct:
+                raise ValueError('style %s is about a context that is kept' % style)
+            if style == 'bfinal_keep':
+                # message ends with a BFINAL=1 block; the NEXT message may refer back into this one
+                out = d.compress(data) + d.flush(zlib.Z_FINISH) + b'\x00'
+                self._hist = (self._hist + bytes(data))[-32768:]
+                self._new_deflater(keep_window=True)
+                return out
+            # a BFINAL=1 block in the middle of the message, the rest of the message in a second stream
+            half = len(data) // 2
+            out = d.compress(data[:half]) + d.flush(zlib.Z_FINISH)
+            self._hist = (self._hist + bytes(data[:half]))[-32768:]
+            self._new_deflater(keep_window=True)
+            d = self._deflater
+            out2 = d.compress(data[half:]) + d.flush(zlib.Z_SYNC_FLUSH)
+            assert out2.endswith(TAIL)
+            self._hist = (self._hist + bytes(data[half:]))[-32768:]
+            return out + out2[:-4]
+        self._hist = (self._hist + bytes(data))[-32768:]
         if style == 'sync':
             out = d.compress(data) + d.flush(zlib.Z_SYNC_FLUSH)
             assert out.endswith(TAIL)
@@ -125,6 +156,33 @@ def selftest():
                             inf = zlib.decompressobj(-sb)
                         got = inf.decompress(pl + TAIL)
                         assert got == m, (sb, cb, snct, cnct, i, style)
+    # the kept-window BFINAL styles are decodable by a plain windowed decoder that starts a new stream, primed
+    # with its window, whenever the previous one ended (reference decoder independent of lomond)
+    for sb in (8, 9, 11, 15):
+        a = Peer(sb, 15, False, False)
+        hist = b''
+        inf = zlib.decompressobj(-sb)
+        msgs = [block, block[:40] + b'tail', b'', block * 3, b'xyz' + block[100:200], os.urandom(700), block]
+        refs = 0
+        for i, m in enumerate(msgs):
+            style = ('bfinal_keep', 'bfinal_mid', 'sync')[i % 3]
+            pl = a.compress(m, style)
+            if len(m) > 100 and len(pl) < len(m) // 2:
+                refs += 1
+            data = pl + TAIL
+            got = b''
+            while True:
+                got += inf.decompress(data)
+                if not inf.eof:
+                    break
+                data = inf.unused_data
+                hist_now = (hist + got)[-(1 << sb):]
+                inf = zlib.decompressobj(-sb, hist_now) if hist_now else zlib.decompressobj(-sb)
+                if not data:
+                    break
+            assert got == m, ('kept-window', sb, i, style, len(got), len(m))
+            hist = (hist + got)[-(1 << sb):]
+        assert refs >= 2 or sb < 11, ('kept-window styles never referred back', sb, refs)
     # bfinal style decodes with a fresh inflater and leaves it at EOF
     p = Peer()
     pl = p.compress(b'hello hello hello', 'bfinal')
